@@ -431,7 +431,7 @@ def area_queue(rng, z, n_cases):
         t = 1000
         for _ in range(rng.randint(2, 9)):
             t += rng.choice([0, 1, 20, 100, 120, 400, 500, 1000, 1500])
-            k = rng.choice(["add", "add", "add", "ready", "ready", "rm"])
+            k = rng.choice(["add", "add", "add", "ready", "ready", "rm", "wd"])
             ans = {}
             for _j in range(rng.randint(0, 3)):
                 ans[rng.randrange(1, 7)] = set(rng.sample(range(10, 14), rng.randint(0, 2)))
@@ -476,6 +476,10 @@ def area_queue(rng, z, n_cases):
                           "  | .ok p => do q := p.1; out := out ++ [\"r\" ++ showEff p.2]", "  | .error e => return \" \".intercalate (out ++ [\"!\" ++ e.name])"]
                     q.async_ready()
                     out.append("r" + ";".join(effects))
+                elif k == "wd":
+                    recs = sorted(set(ans) | {x for v in ans.values() for x in v})
+                    L += ["  q := q.async_remove_answers [%s]" % ", ".join(str(x) for x in recs)]
+                    q.async_remove_answers(recs)
                 else:
                     L += ["  q := q.remove_answers_from_queue %s" % lean_ans(ans)]
                     q._remove_answers_from_queue({k2: set(v) for k2, v in ans.items()})
